@@ -76,7 +76,7 @@ def stage_ticks(report, tier, rng, dist):
             if v is not None:
                 report.violation(f'C14:{v[0]}', v[1], dict(case=case, k1=k1, k2=k2, level='tick'))
             term_tids = [script.submit_tids[f] for f in script.terminated_fids if f < len(script.submit_tids)]
-            terms.append(I.emit_icase(case, obs, oracle, k1, k2, term_tids))
+            terms.append(I.emit_icase(case, obs, oracle, k1, k2, term_tids, getattr(script, 'nstarted', 0)))
             kept.append(dict(case=case, k1=k1, k2=k2, outcome=obs['outcome']))
     try:
         bad = coq_failing('corr_C14_ticks', I.INTR_IMPORTS, terms, f'check_icase {PARAMS}', shard=150)
